@@ -140,15 +140,15 @@ theorem seg_plain (cfs : CFields) (fl : Flags) (t p : Bytes) (tag : BitVec 64) (
     (vs : Vals) (v' : Val) (ht : IsVarint t tag)
     (hlk : lookupField cfs (tag >>> 3).toNat = some (i, false, zz, c))
     (hw : (tag &&& 7#64).toNat = c.wire.num) (hp : IsPayload c.wire.num p)
-    (hdec : ∃ f, decode f c p (Vals.get vs i) { fl with zigzag := fl.zigzag || zz } = .ok (v', p.length)) :
+    (hdec : ∃ f, decodeU f c p (Vals.get vs i) { fl with zigzag := fl.zigzag || zz } = .ok (v', p.length)) :
     Seg cfs fl (t ++ p) vs (Vals.set vs i v') := by
   intro rest lenB off R hle ⟨f2, h2⟩
   obtain ⟨f1, h1⟩ := hdec
   refine ⟨max f1 f2 + 1, ?_⟩
-  have hd1 : decode (max f1 f2) c p (Vals.get vs i) { fl with zigzag := fl.zigzag || zz } = .ok (v', p.length) := by
+  have hd1 : decodeU (max f1 f2) c p (Vals.get vs i) { fl with zigzag := fl.zigzag || zz } = .ok (v', p.length) := by
     rw [decode_mono f1 _ c p _ _ (Nat.le_max_left _ _) (by rw [h1]; simp), h1]
   have hd2 : ∀ o, o = off + (t ++ p).length →
-      decodeStruct (max f1 f2) cfs rest lenB (Vals.set vs i v') fl o = .ok R := by
+      decodeStructU (max f1 f2) cfs rest lenB (Vals.set vs i v') fl o = .ok R := by
     intro o ho
     rw [ho, decodeStruct_mono f2 _ cfs rest lenB _ fl _ (Nat.le_max_right _ _) (by rw [h2]; simp), h2]
   rw [decodeStruct_succ]
@@ -175,15 +175,15 @@ theorem seg_emb (cfs : CFields) (fl : Flags) (t pl d : Bytes) (tag : BitVec 64) 
     (vs : Vals) (v' : Val) (ht : IsVarint t tag)
     (hlk : lookupField cfs (tag >>> 3).toNat = some (i, true, zz, c))
     (hw : (tag &&& 7#64).toNat = 2) (hc : c.wire = .varlen) (hl : VTok pl d.length)
-    (hdec : ∃ f, decode f c d (Vals.get vs i) { fl with zigzag := fl.zigzag || zz } = .ok (v', d.length)) :
+    (hdec : ∃ f, decodeU f c d (Vals.get vs i) { fl with zigzag := fl.zigzag || zz } = .ok (v', d.length)) :
     Seg cfs fl (t ++ (pl ++ d)) vs (Vals.set vs i v') := by
   intro rest lenB off R hle ⟨f2, h2⟩
   obtain ⟨f1, h1⟩ := hdec
   refine ⟨max f1 f2 + 1, ?_⟩
-  have hd1 : decode (max f1 f2) c d (Vals.get vs i) { fl with zigzag := fl.zigzag || zz } = .ok (v', d.length) := by
+  have hd1 : decodeU (max f1 f2) c d (Vals.get vs i) { fl with zigzag := fl.zigzag || zz } = .ok (v', d.length) := by
     rw [decode_mono f1 _ c d _ _ (Nat.le_max_left _ _) (by rw [h1]; simp), h1]
   have hd2 : ∀ o, o = off + (t ++ (pl ++ d)).length →
-      decodeStruct (max f1 f2) cfs rest lenB (Vals.set vs i v') fl o = .ok R := by
+      decodeStructU (max f1 f2) cfs rest lenB (Vals.set vs i v') fl o = .ok R := by
     intro o ho
     rw [ho, decodeStruct_mono f2 _ cfs rest lenB _ fl _ (Nat.le_max_right _ _) (by rw [h2]; simp), h2]
   rw [decodeStruct_succ]
